@@ -19,7 +19,7 @@ from bibtexparser.model import Entry, Field, String
 from bibtexparser.library import Library
 from bibtexparser.splitter import Splitter
 
-SIGMA = '{}"# x1\\_'
+SIGMA = '{}"# x1\\_\n'
 NUMERIC = ("year", "month", "volume", "number", "pages", "edition", "chapter", "issue")
 
 
@@ -192,7 +192,7 @@ def sym_value(eng, L):
     cs = chars(v)
     g = True
     if L >= 1:
-        g = b_and(b_not(ch_eq(cs[0], " ")), b_not(ch_eq(cs[-1], " ")))
+        g = b_all([b_not(ch_eq(cs[0], " ")), b_not(ch_eq(cs[-1], " ")), b_not(ch_eq(cs[0], "\n")), b_not(ch_eq(cs[-1], "\n"))])
     return v, g
 
 
@@ -282,7 +282,7 @@ def task_reparse(L, default, prefix=""):
     v = mk([eng.sym_char(f"c{i}", prefix[i] if i < len(prefix) else SIGMA) for i in range(L)])
     g = True
     if L >= 1:
-        g = b_and(b_not(ch_eq(chars(v)[0], " ")), b_not(ch_eq(chars(v)[-1], " ")))
+        g = b_all([b_not(ch_eq(chars(v)[0], " ")), b_not(ch_eq(chars(v)[-1], " ")), b_not(ch_eq(chars(v)[0], "\n")), b_not(ch_eq(chars(v)[-1], "\n"))])
     if g is False:
         return rec.result(worlds=0)
     E = eng.I.models.eq_simple
